@@ -127,3 +127,76 @@ Definition eval_last_send (c : icase) : option esend :=
 (* accounts mentioned by a posting list *)
 Definition posting_accounts (ps : list posting) : list string :=
   nodup string_dec (flat_map (fun p => [psrc p; pdst p]) ps).
+
+(* ---- the list traversals of eval_esrc / eval_edest as top-level functions (for the proofs) ---- *)
+Fixpoint eval_esrc_list (vs : env) (asset : string) (l : list source) : option (list esrc) :=
+  match l with
+  | [] => Some []
+  | x :: l' => match eval_esrc vs asset x, eval_esrc_list vs asset l' with Some a, Some b => Some (a :: b) | _, _ => None end
+  end.
+
+Fixpoint eval_esrc_items (vs : env) (asset : string) (l : list (range * allot * source)) : option (list (clause * esrc)) :=
+  match l with
+  | [] => Some []
+  | (_, a, x) :: l' =>
+      match clause_of vs a, eval_esrc vs asset x, eval_esrc_items vs asset l' with
+      | Some c, Some e, Some b => Some ((c, e) :: b)
+      | _, _, _ => None
+      end
+  end.
+
+Lemma eval_esrc_inorder_eq vs asset r l :
+  eval_esrc vs asset (SInorder r l) = option_map ESInorder (eval_esrc_list vs asset l).
+Proof.
+  cbn [eval_esrc]. match goal with |- match ?X with _ => _ end = _ => assert (E : X = eval_esrc_list vs asset l) end.
+  { induction l as [|x l IH]; [reflexivity|]. cbn [eval_esrc_list]. rewrite <- IH. reflexivity. }
+  rewrite E. destruct (eval_esrc_list vs asset l); reflexivity.
+Qed.
+
+Lemma eval_esrc_allot_eq vs asset r items :
+  eval_esrc vs asset (SAllot r items) = option_map ESAllot (eval_esrc_items vs asset items).
+Proof.
+  cbn [eval_esrc]. match goal with |- match ?X with _ => _ end = _ => assert (E : X = eval_esrc_items vs asset items) end.
+  { induction items as [|[[r0 a] x] l IH]; [reflexivity|]. cbn [eval_esrc_items]. rewrite <- IH. reflexivity. }
+  rewrite E. destruct (eval_esrc_items vs asset items); reflexivity.
+Qed.
+
+Fixpoint eval_edest_clauses (vs : env) (asset : string) (l : list (range * expr * kod)) : option (list (Z * ekod)) :=
+  match l with
+  | [] => Some []
+  | (_, ce, k) :: l' =>
+      match ok_opt (eval_as vs ce (expect_monetary_of_asset asset)), eval_ekod vs asset k, eval_edest_clauses vs asset l' with
+      | Some c, Some k', Some b => Some ((c, k') :: b)
+      | _, _, _ => None
+      end
+  end.
+
+Fixpoint eval_edest_items (vs : env) (asset : string) (l : list (range * allot * kod)) : option (list (clause * ekod)) :=
+  match l with
+  | [] => Some []
+  | (_, a, k) :: l' =>
+      match clause_of vs a, eval_ekod vs asset k, eval_edest_items vs asset l' with
+      | Some c, Some k', Some b => Some ((c, k') :: b)
+      | _, _, _ => None
+      end
+  end.
+
+Lemma eval_edest_inorder_eq vs asset r cl rem :
+  eval_edest vs asset (DInorder r cl rem) =
+  match eval_edest_clauses vs asset cl, eval_ekod vs asset rem with
+  | Some cl', Some rem' => Some (EDInorder cl' rem')
+  | _, _ => None
+  end.
+Proof.
+  cbn [eval_edest]. match goal with |- match ?X with _ => _ end = _ => assert (E : X = eval_edest_clauses vs asset cl) end.
+  { induction cl as [|[[r0 ce] k] l IH]; [reflexivity|]. cbn [eval_edest_clauses]. rewrite <- IH. reflexivity. }
+  rewrite E. reflexivity.
+Qed.
+
+Lemma eval_edest_allot_eq vs asset r items :
+  eval_edest vs asset (DAllot r items) = option_map EDAllot (eval_edest_items vs asset items).
+Proof.
+  cbn [eval_edest]. match goal with |- match ?X with _ => _ end = _ => assert (E : X = eval_edest_items vs asset items) end.
+  { induction items as [|[[r0 a] k] l IH]; [reflexivity|]. cbn [eval_edest_items]. rewrite <- IH. reflexivity. }
+  rewrite E. destruct (eval_edest_items vs asset items); reflexivity.
+Qed.
